@@ -236,10 +236,12 @@ def checkAcc (d : DS) (s : St) (o : Obs) (t : Toks) (mi : Option (Bytes × Bool)
       -- canonical encoding of such a value": a disagreement is a failure of that property
       let owner := if k == "text" || k == "disp" then "C12" else if k == "encs" then "C04"
         else if k == "pk" || k == "pkkey" || k == "nidpk" || k == "nidconv" then "C10"
+        else if k == "rtseq" then "C07"
         else if k == "conv" || k == "dbg" then "C03" else "C14"
       let pred := if k == "encs" then "encoding_is_the_same_into_every_kind_of_sink"
         else if k == "disp" then "display_is_the_text_form_whatever_the_sink_did_before"
         else if k == "nidconv" then "every_conversion_to_a_node_id_gives_the_node_id"
+        else if k == "rtseq" then "sequence_number_preserved_by_encoding_and_decoding"
         else s!"accessor_{k}_agrees_with_raw_content"
       (s.diff s!"acc.{k}" model impl).prop owner pred s!"want={model} got={impl} pairs={showPairs r.content}"
   let s := c s "id" (optHex r.idString)
@@ -313,6 +315,7 @@ def checkAcc (d : DS) (s : St) (o : Obs) (t : Toks) (mi : Option (Bytes × Bool)
   let s := c s "disp" "1"
   let s := if thas t "encs" then c s "encs" "1" else s
   let s := if thas t "nidconv" then c s "nidconv" "1" else s
+  let s := if thas t "rtseq" then c s "rtseq" "1" else s
   let s := c s "dbg" "ok"
   let s := match tget t "json" with
     | "1" => s.chk
@@ -792,6 +795,31 @@ def handleBuild (d : DS) (s : St) (t : Toks) (o : Toks) (rec : Option Obs) : St 
         if resKind res == "ExceedsMaxSize" && !(m.adm.contains "ExceedsMaxSize") && mres != "reaches-signer" then
           s.prop "C09" "builder_refusal_has_a_size_cause" s!"model={mres} impl={res}"
         else s
+    -- C14: what a typed builder method stores reads back as the value set (the last call per key)
+    let s := match rec with
+      | some ob =>
+        if resClass res != "ok" then s else
+        let r := ob.toRec
+        let calls := (tget t "calls").splitOn ";"
+        let lastOf (name : String) : Option (List String) :=
+          (calls.filterMap fun c => match c.splitOn ":" with
+            | n :: rest => if n == name then some rest else none
+            | [] => none).getLast?
+        let port (name : String) (got : Option Nat) : Bool := match lastOf name with
+          | some [n] => got == n.toNat?
+          | _ => true
+        let addr (name : String) (len : Nat) (got : Option Bytes) : Bool := match lastOf name with
+          | some [v] => (unhex v).length != len || got == some (unhex v)
+          | _ => true
+        -- (a later generic call on the same key overrides a typed one: only builders made of typed
+        --  calls are judged)
+        let onlyTyped := calls.all fun c => match c.splitOn ":" with
+          | n :: _ => ["seq", "ip4", "ip6", "tcp4", "tcp6", "udp4", "udp6", "-", ""].contains n
+          | [] => true
+        let good := port "tcp4" r.tcp4 && port "tcp6" r.tcp6 && port "udp4" r.udp4 && port "udp6" r.udp6 &&
+          addr "ip4" 4 r.ip4 && addr "ip6" 16 r.ip6
+        if !onlyTyped || good then s.chk else s.prop "C14" "builder_reads_back" s!"calls={tget t "calls"} pairs={showPairs ob.pairs}"
+      | none => s
     -- the record: the model's, or (within the slack, implementation built it) the exactly checked one
     let mrec := if slackOk && resClass res == "ok" then m.exact else m.enr
     match mrec, rec with
@@ -1121,6 +1149,8 @@ def handleNid (s : St) (t : Toks) : St :=
       | some id => hex id.raw
       | none => "err"
     let s := s.cmp "nid.deser" m out
+    let s := if thas t "routes" && tget t "routes" != "1" then
+        s.prop "C16" "deser_independent_of_the_json_route" s!"in={hex inp} out={out}" else s.chk
     -- accepted exactly when, after at most one leading "0x", 64 hex digits remain
     let body := if inp.take 2 == [48, 120] then inp.drop 2 else inp
     let good := body.length == 64 && body.all (fun c => isHexChar c)
@@ -1301,6 +1331,11 @@ def finishPending (s : St) (recs : List Obs) (acc : Option Toks) : St :=
           | some c, some after =>
             let s := if tget o "res" == "ok" then s.chk else s.prop "C05" "accepted_again_by_decoder" s!"res={tget o "res"}"
             let s := if obsEq c after then s.chk else s.prop "C04" "redecode_identical" ""
+            -- the typed accessors of the decoded record (C14: "... through builder, setter, socket
+            -- setter and decode")
+            let s := match acc with
+              | some a => if tget o "res" == "ok" then checkAcc d s after a none else s
+              | none => s
             { s with cur := some after }
           | _, _ => s
         else
